@@ -139,6 +139,13 @@ func getOrCreateAndAppendField(c *[]CollectedField, name, alias string, objectDe
 				return &(*c)[i]
 			}
 
+			// a field selected through an abstract type condition applies to whichever
+			// object is being resolved, so it shares the response key with any other
+			// selection of that field (e.g. __typename selected through a union).
+			if isAbstractDefinition(cf.ObjectDefinition) || isAbstractDefinition(objectDefinition) {
+				return &(*c)[i]
+			}
+
 			for _, ifc := range objectDefinition.Interfaces {
 				if ifc == cf.ObjectDefinition.Name {
 					return &(*c)[i]
@@ -156,6 +163,10 @@ func getOrCreateAndAppendField(c *[]CollectedField, name, alias string, objectDe
 
 	*c = append(*c, f)
 	return &(*c)[len(*c)-1]
+}
+
+func isAbstractDefinition(def *ast.Definition) bool {
+	return def.Kind == ast.Interface || def.Kind == ast.Union
 }
 
 func shouldIncludeNode(directives ast.DirectiveList, variables map[string]any) bool {
